@@ -681,6 +681,39 @@ def gen_next_op_free(pmod, jmod):
             "  if existsb (is_ostate %s) (j_ops jb) then %s\n  else if negb (existsb (is_ostate %s) (j_ops jb)) then %s else %s.\n"
             % (OSTATE[s1], c1, OSTATE[s2], c2, c3))
 
+def gen_first_op(jmod, pyname, coqname, none_handling):
+    """get_next_not_done_operation / get_next_idle_operation / get_processing_operation:
+       operations = job.operations; x = next(filter(lambda op: <cmp>, operations), None); <none handling>; return x
+    -> the INDEX of the first operation record that satisfies <cmp> (the model reads the record by that index);
+    none_handling: 'raise' (raise InvalidValue when None), 'none' (returns None), checked on the source."""
+    f = find_func(jmod.body, pyname)
+    if [a.arg for a in f.args.args] != ["job"]:
+        raise Unsupported(pyname + " signature")
+    b = body_wo_doc(f)
+    if len(b) < 3 or ast.unparse(b[0]) != "operations = job.operations" or not isinstance(b[1], ast.Assign) or not isinstance(b[-1], ast.Return):
+        raise Unsupported(pyname + " shape")
+    v = b[1].targets[0].id if (len(b[1].targets) == 1 and isinstance(b[1].targets[0], ast.Name)) else None
+    call = b[1].value
+    if not (v and isinstance(call, ast.Call) and ast.unparse(call.func) == "next" and len(call.args) == 2 and not call.keywords
+            and ast.unparse(call.args[1]) == "None" and isinstance(call.args[0], ast.Call) and ast.unparse(call.args[0].func) == "filter"
+            and len(call.args[0].args) == 2 and ast.unparse(call.args[0].args[1]) == "operations"
+            and isinstance(call.args[0].args[0], ast.Lambda) and [a.arg for a in call.args[0].args[0].args.args] == ["op"]):
+        raise Unsupported(pyname + ": expected next(filter(lambda op: ..., operations), None)")
+    pred = op_state_cmp(call.args[0].args[0].body, "op")
+    if ast.unparse(b[-1].value) != v:
+        raise Unsupported(pyname + " return")
+    mid = b[2:-1]
+    if none_handling == "raise":
+        if not (len(mid) == 1 and isinstance(mid[0], ast.If) and ast.unparse(mid[0].test) == v + " is None" and not mid[0].orelse
+                and len(mid[0].body) == 1 and isinstance(mid[0].body[0], ast.Raise) and "InvalidValue" in ast.unparse(mid[0].body[0])):
+            raise Unsupported(pyname + ": expected `if x is None: raise InvalidValue(...)`")
+    else:
+        ok = (mid == []) or (len(mid) == 1 and isinstance(mid[0], ast.If) and ast.unparse(mid[0].test) == v + " is None" and not mid[0].orelse
+                             and len(mid[0].body) == 1 and isinstance(mid[0].body[0], ast.Return) and ast.unparse(mid[0].body[0].value) == "None")
+        if not ok:
+            raise Unsupported(pyname + ": unexpected statements before the return")
+    return "Definition %s (jb : job) : option nat :=\n  find_idx (fun o => %s) (j_ops jb).\n" % (coqname, pred)
+
 
 def main():
     tmod = parse("jobshoplab/state_machine/core/transitions.py")
@@ -737,6 +770,9 @@ def main():
     out.append(gen_is_early(pmod))
     out.append(gen_is_transportable(pmod))
     out.append(gen_next_op_free(pmod, jmod))
+    out.append(gen_first_op(jmod, "get_next_not_done_operation", "gen_first_not_done", "raise"))
+    out.append(gen_first_op(jmod, "get_next_idle_operation", "gen_first_idle", "none"))
+    out.append(gen_first_op(jmod, "get_processing_operation", "gen_first_proc", "none"))
     OUT.parent.mkdir(parents=True, exist_ok=True)
     text = "\n".join(out)
     if not OUT.exists() or OUT.read_text() != text:
